@@ -34,8 +34,60 @@ class Engine(_Base, ExprMixin, CallMixin, StmtMixin):
                 if s1.exc is not None:
                     out.append((s1, None))
                 else:
+                    hints = getattr(self.cur_contract, 'hints', None) or {}
+                    if hints.get('exact_map') and not self.spec_mode:
+                        out.extend(self.quant_raises(s1, it1, comp, g.elt, e))
                     out.append((s1, VBool(self.quant_over(s1, it1, comp, g.elt, is_all, e))))
         return out
+
+    def str_chars(self, st, v):
+        """the characters of a str as a sequence of one-character strings (uninterpreted)"""
+        r = VSeq.from_term(Seq(STR), z3.Function('str_chars', StrS, sort_of(Seq(STR)))(v.t))
+        st.fact(r.len >= 0)
+        return r
+
+    def quant_raises(self, st, it, comp, elt, node):
+        """contract hint `exact_map`: the exceptional outcomes of any(...)/all(...) over a sequence -- the element expression evaluated
+        (not in spec mode) at an ARBITRARY index of the source; that any/all stop at the first deciding element is ignored, which only
+        adds exceptional paths (over-approximation)"""
+        if isinstance(it, VList):
+            it = self.list_as_seq(st, it)
+        if isinstance(it, VStr):
+            it = self.str_chars(st, it)
+        if isinstance(it, VTuple):
+            items = [(x, z3.BoolVal(True)) for x in it.items]
+        elif isinstance(it, VSeq):
+            j = z3.Int(fresh_name('rj'))
+            items = [(it.at(j), z3.And(0 <= j, j < it.len))]
+        else:
+            return []
+        res = []
+        for item, rng in items:
+            base = st.copy()
+            base.assume(rng)
+            fid = base.new_frame(base.cur, None)
+            save = base.cur
+            base.cur = fid
+            states = self.assign(base, comp.target, item, node)
+            for c in comp.ifs:
+                nxt = []
+                for s in states:
+                    if s.exc is not None:
+                        nxt.append(s)
+                        continue
+                    for s2, cv in self.eval(s, c):
+                        if s2.exc is None:
+                            s2.assume(self.truth(s2, cv))
+                        nxt.append(s2)
+                states = nxt
+            for s in states:
+                outs = [(s, None)] if s.exc is not None else self.eval(s, elt)
+                for s2, v in outs:
+                    if s2.exc is not None and s2.exc[0] == 'raise':
+                        s2.cur = save
+                        s2.frames.pop(fid, None)
+                        res.append((s2, None))
+        return res
 
     def quant_over(self, st, it, comp, elt, is_all, node):
         """pure (side-effect free, non raising) element predicate assumed; evaluated in spec mode"""
@@ -64,6 +116,8 @@ class Engine(_Base, ExprMixin, CallMixin, StmtMixin):
             return z3.And(*conds), b
         if isinstance(it, VList):
             it = self.list_as_seq(st, it)
+        if isinstance(it, VStr):
+            it = self.str_chars(st, it)
         if isinstance(it, VTuple):
             parts = []
             for item in it.items:
@@ -100,7 +154,13 @@ class Engine(_Base, ExprMixin, CallMixin, StmtMixin):
             self.unsupported(e, 'comprehension')
         comp = e.generators[0]
         out = []
+        sources = []
         for s0, it in self.eval(st, comp.iter):
+            if s0.exc is None and isinstance(it, VOpt):
+                sources.extend(self.force(s0, it, e, 'builtins:TypeError'))       # iterating over None is a TypeError
+            else:
+                sources.append((s0, it))
+        for s0, it in sources:
             if s0.exc is not None:
                 out.append((s0, None))
                 continue
@@ -108,6 +168,13 @@ class Engine(_Base, ExprMixin, CallMixin, StmtMixin):
                 it = self.list_as_seq(s0, it)
             if isinstance(it, VDict):
                 it = VFunc('dictiter', dict=it, mode='keys')
+            hints = getattr(self.cur_contract, 'hints', None) or {}
+            if hints.get('exact_map') and isinstance(it, VTuple) and not it.items:
+                out.append((s0, VTuple([])))         # nothing to map: the empty sequence (its consumers take any sequence)
+                continue
+            if hints.get('exact_map') and isinstance(it, VSeq) and not comp.ifs and not self.spec_mode:
+                out.extend(self.exact_map(s0, e, comp, it))
+                continue
             # one arbitrary item of the source, to learn the element type and to state the membership fact
             if isinstance(it, VFunc) and it.kind == 'dictiter':
                 d = it.dict
@@ -152,6 +219,51 @@ class Engine(_Base, ExprMixin, CallMixin, StmtMixin):
                 s0.assume(z3.ForAll([i], z3.Implies(z3.And(0 <= i, i < n), body)))
             out.append((s0, l))
         return out
+
+    def exact_map(self, s0, e, comp, it):
+        """[elt for x in seq] with a side-effect free element expression (contract hint `exact_map`): the result has the length of the
+        source and its i-th item is the element expression at the i-th source item; if the element expression can raise, the
+        comprehension raises that exception for SOME index (the items before it are not stated to be fine: over-approximation) and
+        returns normally only if no index raises."""
+        j = z3.Int(fresh_name('mj'))
+        base = s0.copy()
+        base.assume(0 <= j, j < it.len)
+        npc = len(base.pc)
+        heap0 = dict(base.heap)
+        fid = base.new_frame(base.cur, None)
+        save = base.cur
+        base.cur = fid
+        states = self.assign(base, comp.target, it.at(j), e)
+        outs = []
+        for s in states:
+            outs.extend(self.eval(s, e.elt) if s.exc is None else [(s, None)])
+        res, oks = [], []
+        for s, v in outs:
+            s.cur = save
+            s.frames.pop(fid, None)
+            if s.exc is not None:
+                res.append((s, None))
+            else:
+                oks.append((s, v))
+        if len(oks) != 1:
+            self.unsupported(e, 'exact_map comprehension whose element expression forks (%d normal outcomes)' % len(oks))
+        s, v = oks[0]
+        if any(s.heap.get(k) is not h for k, h in heap0.items()) or len(s.heap) != len(heap0):
+            self.unsupported(e, 'exact_map comprehension with a heap effect in the element expression')
+        if isinstance(v, VEnum) or not hasattr(v, 't'):
+            self.unsupported(e, 'exact_map comprehension element %r' % (v,))
+        conds = s.pc[npc:]
+        ety = v.ty
+        i = z3.Int(fresh_name('mi'))
+        arr = z3.Const(fresh_name('marr'), z3.ArraySort(I, sort_of(ety)))
+        n = z3.Int(fresh_name('mlen'))
+        body = z3.And(z3.Select(arr, i) == z3.substitute(to_term(v), (j, i)), *[z3.substitute(c, (j, i)) for c in conds])
+        s0.assume(n == it.len, n >= 0)
+        s0.assume(z3.ForAll([i], z3.Implies(z3.And(0 <= i, i < n), body), patterns=[z3.Select(arr, i)]))
+        l = self.new_list(s0, ety)
+        self.list_store(s0, l, n, arr)
+        res.append((s0, l))
+        return res
 
     def do_await(self, st, e):
         """`await x`: a scheduling point.  The awaited expression is evaluated; obligations attached to this point
